@@ -179,7 +179,27 @@ def writers_persist_unconditionally(repo, fm_rel, names=("write_service_config",
             if wrote:
                 continue
             facts = list(ps.facts)
-            missing_dir = len(facts) == 1 and facts[0][0][0] == "truth" and facts[0][0][1].endswith((".exists()", ".is_dir()")) and facts[0][1] is False
+            probes = [(k, t) for (k, t) in facts if k[0] == "truth" and k[1].endswith((".exists()", ".is_dir()"))]
+            others = [(k, t) for (k, t) in facts if (k, t) not in probes and not (k[0] == "is" and "None" in k[1:])]
+            # the one permitted silent return: the existence probe of the service directory failed (and nothing else was tested,
+            # apart from passing that outcome on as None / not None)
+            missing_dir = len(probes) == 1 and probes[0][1] is False and not others
             if not missing_dir:
                 bad.append((fi, describe_alt(ps.facts)))
     return bad, n
+
+
+def directory_creators(repo, fm_rel):
+    """Functions of a file manager, other than create_sid_folder, that create directories: [(function, call node)]."""
+    m = repo.module(fm_rel)
+    out = []
+    for nm, fi in m.functions.items():
+        if nm == "create_sid_folder":
+            continue
+        for c in ast.walk(fi.node):
+            if isinstance(c, ast.Call):
+                d = dotted(c.func) or ""
+                last = c.func.attr if isinstance(c.func, ast.Attribute) else d
+                if last in ("mkdir", "makedirs") or d in ("os.mkdir", "os.makedirs"):
+                    out.append((fi, c))
+    return out
